@@ -195,22 +195,32 @@ def run(ctx):
         yw = Q.find_all(yel, lambda t: t.op == "as_array") if yel is not None else []
         if xw and yw:
             bx, lox, hix = lin.window(xw[0])
-            by, loy, hiy = lin.window(yw[0])
-            i = Q.find_all(yw[0], lambda t: t.op == "range_elem")
             okx = Q.path_of(bx) == "s" and L.lin(lox).key() == lin.Lin(0).key() and L.lin(hix).key() == lin.Lin(24).key()
             oky = False
-            if i and Q.path_of(by) == "s":
-                e = lin.atom(i[0])
-                oky = L.lin(loy).add(e.scale(24).add(lin.Lin(24)), -1).key() == lin.Lin(0).key() and \
-                    L.lin(hiy).add(e.scale(24).add(lin.Lin(48)), -1).key() == lin.Lin(0).key() and \
-                    i[0].args[0].op == "int" and i[0].args[0].args[0] == 0
-                # number of y elements = floor((len - 24) / 24)
-                cnt = i[0].args[1]
-                okcnt = cnt.op == "div" and cnt.args[1].op == "int" and cnt.args[1].args[0] == 24 and \
-                    L.lin(cnt.args[0]).add(L.lin(mk("len", by)), -1).key() == lin.Lin(-24).key()
-                oky = oky and okcnt
+            wy = lin.window(yw[0])
+            if wy is not None:
+                # idiom (a): indexed windows y_bytes[i*24 .. (i+1)*24], i in 0 .. (len-24)/24
+                by, loy, hiy = wy
+                i = Q.find_all(yw[0], lambda t: t.op == "range_elem")
+                if i and Q.path_of(by) == "s":
+                    e = lin.atom(i[0])
+                    oky = L.lin(loy).add(e.scale(24).add(lin.Lin(24)), -1).key() == lin.Lin(0).key() and \
+                        L.lin(hiy).add(e.scale(24).add(lin.Lin(48)), -1).key() == lin.Lin(0).key() and \
+                        i[0].args[0].op == "int" and i[0].args[0].args[0] == 0
+                    cnt = i[0].args[1]
+                    okcnt = cnt.op == "div" and cnt.args[1].op == "int" and cnt.args[1].args[0] == 24 and \
+                        L.lin(cnt.args[0]).add(L.lin(mk("len", by)), -1).key() == lin.Lin(-24).key()
+                    oky = oky and okcnt
+                det = "x window [%s,%s) y_i window [%s,%s)" % (S(lox, 2), S(hix, 2), S(loy, 4), S(hiy, 4))
+            else:
+                # idiom (b): consecutive chunks_exact(24) of s[24..]
+                ch = Q.find_all(yw[0], lambda t: t.op == "chunks")
+                if ch and ch[0].args[2] == "chunks_exact" and ch[0].args[1].op == "int" and ch[0].args[1].args[0] == 24:
+                    wb = lin.window(ch[0].args[0])
+                    oky = wb is not None and Q.path_of(wb[0]) == "s" and L.lin(wb[1]).key() == lin.Lin(24).key() and \
+                        L.lin(wb[2]).add(L.lin(mk("len", wb[0])), -1).key() == lin.Lin(0).key()
+                det = "x window [%s,%s) y = chunks_exact(24) of s[24..]: %s" % (S(lox, 2), S(hix, 2), oky)
             okr = okx and oky
-            det = "x window [%s,%s) y_i window [%s,%s)" % (S(lox, 2), S(hix, 2), S(loy, 4), S(hiy, 4))
         # validity required for x and every y
         valid = [t for t, rel, v in fs if t.op == "ct_valid" and rel == "eq" and v == 1]
         needx = any(t.args[0].op == "fp_from_repr" and xw and Q.contains(t.args[0], lambda z: z is xw[0]) for t in valid)
